@@ -1724,7 +1724,9 @@ class Exec:  # an execution path
             block.timestamp,
         ):
             _val = _val.as_z3() if isinstance(_val, BV) else _val
-            var_set = itertools.chain(var_set, self.path.get_var_set(_val))
+            # note: the block cheatcodes may leave a plain int there
+            if is_bv(_val):
+                var_set = itertools.chain(var_set, self.path.get_var_set(_val))
 
         # the keys of self.code are constant
         for _contract in self.code.values():
